@@ -930,6 +930,29 @@ fn corpus_worlds() -> Vec<World> {
     queries: vec![json!({"type":"term","field":"t","value":"rust"})],
     class: "corpus_nested_unstored",
   });
+  // the same for every way a nested property can carry index data without being stored: a
+  // keyword that exists only as a fast column, a text that is only indexed, a numeric column
+  for (leaf, flt, class) in [
+    (Prop::Leaf { name: "b".into(), kind: Kind::Kw, nullable: true, stored: false, indexed: false, fast: true },
+     nest("c", eq("b", "x")), "corpus_nested_kw_fast_only"),
+    (Prop::Leaf { name: "n".into(), kind: Kind::I64, nullable: true, stored: false, indexed: true, fast: true },
+     nest("c", eq("a", "q")), "corpus_nested_i64_unstored"),
+  ] {
+    let name = match &leaf { Prop::Leaf { name, .. } => name.clone(), _ => unreachable!() };
+    let v1 = if name == "n" { json!(7) } else { json!("x") };
+    let v2 = if name == "n" { json!(9) } else { json!("y") };
+    ws.push(World {
+      props: vec![txt("t"), Prop::Obj { name: "c".into(), nullable: true, fields: vec![kwp("a", true), leaf] }],
+      batches: adds(vec![
+        json!({"t":"rust","c":[{"a":"p", name.clone(): v1},{"a":"q"}]}),
+        json!({"t":"fast","c":{"a":"p", name.clone(): v2}}),
+      ]),
+      reopen_after: vec![false; 2],
+      filters: vec![flt, nest("c", eq("a", "p"))],
+      queries: vec![json!({"type":"term","field":"t","value":"rust"})],
+      class,
+    });
+  }
   ws
 }
 
